@@ -209,5 +209,35 @@ fn fault_cases(rng: &mut Rng, thorough: bool, out: &mut Out, cases: &mut Vec<(Va
             }
         }
         let _ = std::fs::remove_dir_all(&dir);
+        // a leftover temporary file with the very name the writer draws (an earlier writer was killed; C19 allows that leftover):
+        // whatever the writer does about it — fail, or take another name — nothing incomplete or mis-named may be published, and a
+        // reported success needs a complete file
+        for stale in [16_384usize, 1] {
+            let dir = scratch_dir(&format!("fault{size}-leftover{stale}"));
+            let (code, outp) = child(&dir, size, &[("FAULT_OP", "none".into()), ("FAULT_PREPLANT", stale.to_string())]);
+            let returned = if code.is_none() || code == Some(137) { "crashed" } else if outp.starts_with("OK") { "ok" } else { "err" };
+            let mut bad: Vec<String> = vec![];
+            let mut complete = 0;
+            for e in std::fs::read_dir(&dir).unwrap().filter_map(|e| e.ok()) {
+                let name = e.file_name().to_string_lossy().into_owned();
+                if !name.ends_with(".tmp") {
+                    let b = std::fs::read(e.path()).unwrap_or_default();
+                    if b.len() == expected_len && bs58::encode(Sha256::digest(&b)).into_string() == name { complete += 1; } else { bad.push(format!("{name}: {} bytes", b.len())); }
+                }
+            }
+            out.count(&format!("c19:leftover-collision:{returned}"));
+            out.oracle_only += 1;
+            let case_id = json!({"fam":"c19.fault","sig":"","size":size,"op":"leftover-with-the-drawn-name","stale_bytes":stale});
+            if !bad.is_empty() {
+                out.oracle_fail("a file that is not content-addressed was published over a leftover temporary file", &case_id, &json!({"returned": returned, "files": bad}));
+            }
+            if returned == "ok" && complete == 0 {
+                out.oracle_fail("writer reported success without a complete published file", &case_id, &json!({"returned": returned}));
+            }
+            if returned == "crashed" {
+                out.oracle_fail("writer crashed on a leftover temporary file", &case_id, &json!({"code": code}));
+            }
+            let _ = std::fs::remove_dir_all(&dir);
+        }
     }
 }
